@@ -146,6 +146,14 @@ def stepSer (st : St) (cmd : List String) (got : String) : Option (St × Verdict
     match st.bm[x]? with
     | none => some (skipV st got)
     | some _ => some (st, expect "allerr" got)
+  | ["wrfailall", x] =>
+    match st.bm[x]? with
+    | none => some (skipV st got)
+    | some _ => some (st, expect "allerr" got)
+  | ["rdsplit", x] =>
+    match st.bm[x]? with
+    | none => some (skipV st got)
+    | some _ => some (st, expect "allok" got)
   | ["spec", y, entry, hexS, claimed] =>
     match bytesOfHex hexS with
     | none => some (skipV st got)
